@@ -15,6 +15,8 @@ use slicec::diagnostics::DiagnosticLevel;
 use slicec::slice_options::SliceOptions;
 
 struct Template { lint: &'static str, other: &'static str, text: &'static str }
+/// templates whose lint is about a top-level definition: there is no enclosing definition to carry an attribute
+fn has_enclosing(t: &Template) -> bool { t.text.contains("{ENCL}") }
 
 // {FILE} {ENCL} {ELEM} {SIB}: attribute slots. Every template also contains one error (a validation error: an empty compact struct).
 const TEMPLATES: &[Template] = &[
@@ -26,6 +28,12 @@ const TEMPLATES: &[Template] = &[
         text: "{FILE}module M\n{ENCL}interface I {\n    /// @param nope: there is no such parameter\n    {ELEM}op()\n    {SIB}op2()\n}\ncompact struct Bad {}\n" },
     Template { lint: "MalformedDocComment", other: "Deprecated",
         text: "{FILE}module M\n{ENCL}interface I {\n    /// @nosuchtag text\n    {ELEM}op()\n    {SIB}op2()\n}\ncompact struct Bad {}\n" },
+    // lints about references that are NOT members (an alias's underlying type, a base interface), placed AFTER a definition with
+    // members: the suppression on those unrelated members (the {SIB} slot) must have no effect on them
+    Template { lint: "Deprecated", other: "BrokenDocLink",
+        text: "{FILE}module M\n[deprecated] struct Old {}\nstruct Holder {\n    {SIB}h: bool\n    i: string\n}\n{ELEM}typealias T = Old\ncompact struct Bad {}\n" },
+    Template { lint: "Deprecated", other: "IncorrectDocComment",
+        text: "{FILE}module M\n[deprecated] interface OldI {}\ninterface K {\n    op({SIB}p: bool) -> string\n}\n{ELEM}interface J : OldI {}\ncompact struct Bad {}\n" },
 ];
 
 fn fill(t: &str, file: &str, encl: &str, elem: &str, sib: &str) -> String {
@@ -47,7 +55,7 @@ fn compile(texts: &[&str], options: &SliceOptions) -> Result<Obs, String> {
 }
 
 pub fn run() -> i32 {
-    let mut rep = Report::new("lints", "4 lint kinds x 11 placements of a suppression (incl. repeated allow attributes) x 4 arguments on template programs (each with one lint about a known element and one error), against the run without suppression");
+    let mut rep = Report::new("lints", "4 lint kinds (6 templates: also lints about an alias's underlying type and a base interface, after a definition with members) x 11 placements of a suppression (incl. repeated allow attributes) x 4 arguments on template programs (each with one lint about a known element and one error), against the run without suppression");
     for t in TEMPLATES {
         let plain = fill(t.text, "", "", "", "");
         let base = match compile(&[&plain], &SliceOptions::default()) { Ok(b) => b, Err(m) => { rep.counterexample(&plain, "diagnostics", &m); continue; } };
@@ -67,7 +75,7 @@ pub fn run() -> i32 {
             // (placement name, texts, cli values, in scope?)
             let mut cases: Vec<(&str, Vec<String>, Vec<String>, bool)> = vec![
                 ("file attribute", vec![fill(t.text, &fattr, "", "", "")], vec![], true),
-                ("enclosing definition", vec![fill(t.text, "", &attr, "", "")], vec![], true),
+                ("enclosing definition", vec![fill(t.text, "", &attr, "", "")], vec![], has_enclosing(t)),
                 ("the element itself", vec![fill(t.text, "", "", &attr, "")], vec![], true),
                 ("an unrelated sibling", vec![fill(t.text, "", "", "", &attr)], vec![], false),
                 ("another file", vec![plain.clone(), format!("{fattr}module N\n")], vec![], false),
@@ -77,7 +85,7 @@ pub fn run() -> i32 {
             let other_fattr = format!("[[allow({})]]\n", t.other);
             cases.push(("the element itself, after another allow attribute", vec![fill(t.text, "", "", &format!("{other_attr}{attr}"), "")], vec![], true));
             cases.push(("a second file attribute", vec![fill(t.text, &format!("{other_fattr}{fattr}"), "", "", "")], vec![], true));
-            cases.push(("enclosing definition, while the element allows something else", vec![fill(t.text, "", &attr, &other_attr, "")], vec![], true));
+            cases.push(("enclosing definition, while the element allows something else", vec![fill(t.text, "", &attr, &other_attr, "")], vec![], has_enclosing(t)));
             // command line: one --allow per identifier, as written and lower-cased
             let ids: Vec<String> = arg.split(',').map(|s| s.trim().to_owned()).collect();
             cases.push(("command line", vec![plain.clone()], ids.clone(), true));
